@@ -73,6 +73,11 @@ def plan(tier, seed):
     for s_ in range(8 if tier == 'thorough' else 2):
         specs.append(dict(kind='big', mode='mux', seed=seed * 10 + s_,
                           count=6 if s_ % 2 else 1))
+    # multiplexers in a manager of more than a thousand nodes (size
+    # thresholds inside sifting; one variable's sweep multiplies the size)
+    for s_ in range(4 if tier == 'thorough' else 1):
+        specs.append(dict(kind='big', mode='mux', seed=seed * 10 + 5 + s_,
+                          count=300 + 100 * s_))
     k = 16 if tier == 'thorough' else 8
     for s in range(k):
         ar = (s % 4 == 3)
